@@ -290,6 +290,36 @@ fn join_lookup_cases(run: &mut Run, rng: &mut Rng, n: usize) {
     let _ = std::fs::remove_file(&jpath);
 }
 
+/// "MIN/MAX, PERCENTILE, GROUP BY order … use ONE total order": over REAL values incl. NaN, the infinities and ±0.0 the groups come
+/// out in that order, MIN is the value of the first group and MAX that of the last, PERCENTILE(0.0) / (1.0) likewise — whatever
+/// the order of the lines (values compared as numbers: every NaN is one value, -0.0 is 0.0)
+fn minmax_order_cases(run: &mut Run, rng: &mut Rng, n: usize) {
+    use crate::engine_run::{prepare, run_files};
+    const DEF: &str = "CREATE TABLE t(line = '^r=(.*)$', line[1] => r REAL);";
+    const POOL: &[&str] = &["1.5", "NaN", "-inf", "inf", "2.5", "-0.0", "0.0", "-2.5", "1e300", "-1e300", "nan", "5e-324"];
+    let same = |a: &str, b: &str| -> bool { match (a.parse::<f64>(), b.parse::<f64>()) { (Ok(x), Ok(y)) => (x.is_nan() && y.is_nan()) || x == y, _ => a == b } };
+    let cell = |rec: &str, i: usize| -> String { rec.split(", ").nth(i).and_then(|c| c.splitn(2, ": ").nth(1)).unwrap_or("").to_owned() };
+    for _ in 0..n {
+        let k = 2 + rng.below(5);
+        let vals: Vec<&str> = (0..k).map(|_| *rng.pick(POOL)).collect();
+        let text: String = vals.iter().map(|v| format!("r={}\n", v)).collect();
+        let desc = format!("defs={} values in line order {:?}", DEF, vals);
+        let (pg, pm) = match (prepare(DEF, "SELECT r FROM t GROUP BY r"), prepare(DEF, "SELECT MIN(r) AS lo, MAX(r) AS hi, PERCENTILE(r, 0.0) AS p0, PERCENTILE(r, 1.0) AS p1 FROM t")) { (Ok(a), Ok(b)) => (a, b), _ => { run.count("minmax:rejected"); continue; } };
+        let groups = run_files(&pg, &[text.clone().into_bytes()]);
+        let mm = run_files(&pm, &[text.clone().into_bytes()]);
+        run.oracle_checks += 1;
+        if groups.status != "ok" || mm.status != "ok" || mm.records().len() != 1 || groups.records().is_empty() { run.count("minmax:no-table"); continue; }
+        let keys: Vec<String> = groups.records().iter().map(|r| cell(r, 0)).collect();
+        let rec = mm.records()[0].clone();
+        let (lo, hi, p0, p1) = (cell(&rec, 0), cell(&rec, 1), cell(&rec, 2), cell(&rec, 3));
+        let (first, last) = (keys.first().unwrap().clone(), keys.last().unwrap().clone());
+        run.count("minmax:decided");
+        if !same(&lo, &first) || !same(&hi, &last) || !same(&p0, &first) || !same(&p1, &last) {
+            run.fail(desc, "min-max-not-ends-of-group-order", format!("GROUP BY lists the values as {:?}; MIN {} MAX {} PERCENTILE(0.0) {} PERCENTILE(1.0) {}", keys, lo, hi, p0, p1));
+        }
+    }
+}
+
 pub fn run(p: &Params) -> Run {
     let mut run = Run::new("C16");
     let mut rng = Rng::new(p.seed ^ 0x16);
@@ -309,6 +339,8 @@ pub fn run(p: &Params) -> Run {
     cmpir_cases(&mut run, &mut rng, p.n(1500, 60_000));
     // array_unique (named in the sentence): unique by the one order, also for NaN / -0.0 / NULL elements
     crate::c03::array_unique_cases(&mut run, &mut rng, p.n(600, 20_000));
+    // MIN / MAX / PERCENTILE against the GROUP BY order (all named in the sentence) over REALs incl. NaN, infinities, signed zeros
+    minmax_order_cases(&mut run, &mut rng, p.n(300, 8000));
     // join lookup (named in the sentence): joined values are equal, equal values are joined
     join_lookup_cases(&mut run, &mut rng, p.n(150, 4000));
     let n = p.n(4000, 200_000);
